@@ -56,12 +56,11 @@ RangeOpts(s, m, both) ==
                         \cup (IF Whole(m) THEN {Opt("range", TRUE, <<>>, <<m \div 4>>)} ELSE {})
                         \cup (IF s[1] = 1 THEN {Opt("time", TRUE, <<<<s[2], 1>>>>, <<>>)} ELSE {})
            ELSE {})
-RangeCases == {[kind |-> "range", fn |-> o.fn, st |-> o.st, sr |-> o.sr, size |-> o.size, s |-> s, a4 |-> a4, m |-> m, sm |-> sm] :
-                 s \in Units, a4 \in Starts, m \in 1..MaxM, sm \in {"near", "fma"},
-                 o \in UNION {RangeOpts(u, k, TRUE) : u \in Units, k \in 1..MaxM}}
-RangeCasesOK == {x \in RangeCases :
-                   /\ Opt(x.fn, x.st, x.sr, x.size) \in RangeOpts(x.s, x.m, x.a4 = StartList[1])   \* "both" variants for the first start only
-                   /\ (x.sm = "fma" => x.fn = "range" /\ x.st /\ IsNone(x.size))}
+MkRange(o, s, a4, m, sm) == [kind |-> "range", fn |-> o.fn, st |-> o.st, sr |-> o.sr, size |-> o.size, s |-> s, a4 |-> a4, m |-> m, sm |-> sm]
+\* the "both" variants for the first start only; the stop formed as start + (m/4)*step ("fma") only for the plain call
+RangeCasesOK == UNION {{MkRange(o, s, a4, m, "near") : o \in RangeOpts(s, m, a4 = StartList[1])}
+                       \cup {MkRange(Opt("range", TRUE, <<>>, <<>>), s, a4, m, "fma")} : s \in Units, a4 \in Starts, m \in 1..MaxM}
+
 Positions(n) == {Tk * k : k \in 0..(n - 1)} \cup {Tk * k + 1 : k \in 0..(n - 1)} \cup {Tk * k - 1 : k \in 0..(n - 1)}
                 \cup {Tk * k + 4 : k \in 0..(n - 2)} \cup {-4, Tk * (n - 1) + 4}
 \* dtype of the coordinate array: float64; int64 / int32 when start and step are integers (np.arange(-2, 4) is a legal
